@@ -9,30 +9,32 @@ Open Scope N_scope.
 
 Ltac fin := repeat split; repeat (progress csimp); rewrite <- ?app_assoc, ?app_nil_r; cbn [app]; try reflexivity; try assumption.
 
-(* HTTP-FLV: the whole visit is one function of the session *)
-Theorem flv_fresh_visit cache key lt c :
+(* HTTP-FLV: the whole visit is one function of the session.  [hdr]: the
+   message is metadata or a sequence header - sent even to a session that has
+   to wait for a key frame (fix F-08i) *)
+Theorem flv_fresh_visit cache key hdr lt c :
   c_kind c = KFlv -> c_fresh c = true ->
   let wait1 := if Nat.ltb 0 (gc_count cache) then false else c_wait c in
-  let c' := flv_step cache key lt c in
+  let c' := flv_step cache key hdr lt c in
   c_fresh c' = false /\
   c_wait c' = (wait1 && negb key) /\
-  c_out c' = c_out c ++ prologue cache false ++ (if wait1 && negb key then [] else [lt]).
+  c_out c' = c_out c ++ prologue cache false ++ (if wait1 && negb key && negb hdr then [] else [lt]).
 Proof.
   intros Hk Hf. cbv zeta. unfold flv_step. rewrite Hk, Hf. cbn [ckind_eqb negb].
   csimp. destruct (Nat.ltb 0 (gc_count cache)); cbn [andb].
   - fin.
   - destruct (c_wait c) eqn:Hw; cbn [andb negb].
-    + destruct key; cbn [negb]; fin.
+    + destruct key; cbn [negb andb]; [fin|]. destruct hdr; cbn [negb]; fin.
     + fin.
 Qed.
 
-Theorem flv_waiting_visit cache key lt c :
+Theorem flv_waiting_visit cache key hdr lt c :
   c_kind c = KFlv -> c_fresh c = false -> c_wait c = true ->
-  let c' := flv_step cache key lt c in
-  c_fresh c' = false /\ c_wait c' = negb key /\ c_out c' = c_out c ++ (if key then [lt] else []).
+  let c' := flv_step cache key hdr lt c in
+  c_fresh c' = false /\ c_wait c' = negb key /\ c_out c' = c_out c ++ (if key || hdr then [lt] else []).
 Proof.
   intros Hk Hf Hw. cbv zeta. unfold flv_step. rewrite Hk, Hf, Hw. cbn [ckind_eqb negb].
-  destruct key; fin.
+  destruct key; cbn [orb]; [fin|]. destruct hdr; fin.
 Qed.
 
 (* relay push: prologue with @setDataFrame-ensured metadata, then the live message *)
@@ -45,29 +47,31 @@ Proof.
   fin.
 Qed.
 
-(* RTMP: the visit in the admission loop *)
-Theorem rtmp_fresh_visit cache key c :
+(* RTMP: the visit in the admission loop.  A session that is still waiting
+   after the key-frame test is handed a header message directly *)
+Theorem rtmp_fresh_visit cache key hdr lc c :
   c_fresh c = true ->
   let wait1 := if Nat.ltb 0 (gc_count cache) then false else c_wait c in
-  let '(c', flushed) := rtmp_visit cache key c in
+  let '(c', flushed) := rtmp_visit cache key hdr lc c in
   flushed = true /\ c_fresh c' = false /\ c_wait c' = (wait1 && negb key) /\
-  c_out c' = c_out c ++ prologue cache false.
+  c_out c' = c_out c ++ prologue cache false ++ (if wait1 && negb key && hdr then [lc] else []).
 Proof.
   intro Hf. cbv zeta. unfold rtmp_visit. rewrite Hf. csimp.
   destruct (Nat.ltb 0 (gc_count cache)); cbn [andb].
   - fin.
   - destruct (c_wait c) eqn:Hw; cbn [andb].
-    + destruct key; cbn [negb]; fin.
+    + destruct key; cbn [negb andb]; [fin|]. destruct hdr; fin.
     + fin.
 Qed.
 
-Theorem rtmp_waiting_visit cache key c :
+Theorem rtmp_waiting_visit cache key hdr lc c :
   c_fresh c = false -> c_wait c = true ->
-  let '(c', flushed) := rtmp_visit cache key c in
-  flushed = key /\ c_fresh c' = false /\ c_wait c' = negb key /\ c_out c' = c_out c.
+  let '(c', flushed) := rtmp_visit cache key hdr lc c in
+  flushed = key /\ c_fresh c' = false /\ c_wait c' = negb key /\
+  c_out c' = c_out c ++ (if negb key && hdr then [lc] else []).
 Proof.
   intros Hf Hw. unfold rtmp_visit. rewrite Hf, Hw. cbn [andb].
-  destruct key; fin.
+  destruct key; cbn [negb andb]; [fin|]. destruct hdr; fin.
 Qed.
 
 (* HTTP-TS: PAT/PMT first, then the cached GOPs, then live data from a boundary on *)
